@@ -34,8 +34,16 @@ func Quiesce() bool {
 		runtime.Gosched()
 		time.Sleep(150 * time.Microsecond)
 	}
+	QuiesceTimeouts++
+	if QuiesceTimeouts == 1 {
+		_, first := BusyGoroutines()
+		println("vsrv.Quiesce: the process did not become idle within the watchdog; first busy goroutine:\n" + first)
+	}
 	return false
 }
+
+// QuiesceTimeouts counts Quiesce calls that gave up (watchdog, not an oracle).
+var QuiesceTimeouts int
 
 // AbandonedRangeProducers is the number of leaked badger range-producer goroutines seen by the last classification.
 var AbandonedRangeProducers int
